@@ -176,7 +176,8 @@ Record state := mkSt {
   amem  : list (N * name * name);   (* (org, alias, index): aliasToIndexNames[org][alias][index] *)
   akeys : list (N * name);          (* (org, alias): alias present in aliasToIndexNames[org], possibly with an empty set *)
   evs   : list event;               (* searchable events: flushed (open segment) or rotated *)
-  ghost : list (N * name);          (* unrotated-segment infos left in memory after their files were deleted *)
+  ghost : list (N * name);          (* PRE-FIX only: unrotated-segment infos left in memory after their files were deleted;
+                                       the fixed delete-index removes them, the field stays [] (TenantProofs.ghost_empty) *)
   segno : N                         (* rotation epoch: open segments carry this number *)
 }.
 
@@ -368,11 +369,11 @@ Definition del_one (X : N) (acc : state * nat) (n : name) : state * nat :=
               | [] => s
               | _ :: _ => fold_left (fun st a => rem_alias st X n a) (file_keys s X n) s
               end in
-    (mkSt (filter (fun p => negb (pair_is X n p)) (ftabs s1)) (mtabs s1) (adirs s1) (afile s1) (amem s1) (akeys s1)
-          (del_evs X n (evs s1))
-          (ghost s1 ++ map (fun e => (e_org e, e_tab e))
-                           (filter (fun e => name_eqb (e_tab e) n && negb (e_rot e)) (evs s1)))
-          (segno s1),
+    (* DeleteVirtualTable forgets the name in the file AND in allVirtualTables; DeleteVirtualTableSegStore
+       also removes the unrotated-segment infos of the deleted segstores (no ghost is left) *)
+    (mkSt (filter (fun p => negb (pair_is X n p)) (ftabs s1)) (filter (fun p => negb (pair_is X n p)) (mtabs s1))
+          (adirs s1) (afile s1) (amem s1) (akeys s1)
+          (del_evs X n (evs s1)) (ghost s1) (segno s1),
      nf)
   else (s, S nf).
 
@@ -385,19 +386,23 @@ Definition do_delete (s : state) (X : N) (expr : name) : state * N :=
 
 Definition set_rot (e : event) : event := mkEv (e_org e) (e_tab e) true (e_id e) (e_seg e).
 
-(* FlushAliasMapToFile: aliases/[org/]<alias>.json := the alias' index set *)
-Definition flush_one (s : state) (fl : list (N * name * name)) (k : N * name) : list (N * name * name) :=
+(* FlushAliasMapToFile: the in-memory map is per alias, the files are per index: for every index that has
+   an alias in memory, aliases/[org/]<index>.json := the aliases of the index *)
+Definition mem_indexes (s : state) : list (N * name) := map (fun t => (fst (fst t), snd t)) (amem s).
+Definition aliases_of_index (s : state) (X : N) (idx : name) : list name :=
+  map (fun t => snd (fst t)) (filter (fun t => (fst (fst t) =? X) && name_eqb (snd t) idx) (amem s)).
+Definition flush_index (s : state) (fl : list (N * name * name)) (k : N * name) : list (N * name * name) :=
   if dir_ok s (fst k) then
     filter (fun t => negb ((fst (fst t) =? fst k) && name_eqb (snd (fst t)) (snd k))) fl
-    ++ map (fun i => (fst k, snd k, i)) (alias_targets s (fst k) (snd k))
+    ++ map (fun a => (fst k, snd k, a)) (aliases_of_index s (fst k) (snd k))
   else fl.
 
-(* initializeAliasToIndexMap: only sub-directories (org <> 0) are read *)
+(* initializeAliasToIndexMap: <index>.json of every org (org 0: the base directory, org n: aliases/n/) *)
 Definition loadable (t : N * name * name) : bool :=
-  negb (fst (fst t) =? 0) && negb (is_empty (snd (fst t))) && negb (is_empty (snd t)).
+  negb (is_empty (snd (fst t))) && negb (is_empty (snd t)).
 
 Definition do_restart (s : state) : state :=
-  let fl := fold_left (flush_one s) (akeys s) (afile s) in
+  let fl := fold_left (flush_index s) (mem_indexes s) (afile s) in
   let ld := filter loadable fl in
   mkSt (ftabs s) (filter (fun p => fst p =? 0) (ftabs s)) (adirs s) fl
        (map (fun t => (fst (fst t), snd t, snd (fst t))) ld)
@@ -520,3 +525,60 @@ End Routed.
 Definition rstep := rstep_with stream_key.
 Definition routs_from := routs_with stream_key.
 Definition rrun := rrun_with stream_key.
+
+(* ====================================================================== *)
+(* PRE-FIX semantics (documentation of repaired defects; no longer the code).
+   del_one_prefix: DeleteVirtualTable left the name in allVirtualTables (a later ingest did not add it back to
+     the file: delete answered 404 and the data stayed) and the unrotated-segment infos stayed in memory
+     (column listing of a deleted index).
+   do_restart_prefix: FlushAliasMapToFile wrote <alias>.json holding INDEX names, initializeAliasToIndexMap read
+     every file as <index>.json and only in sub-directories (org 0's aliases were lost, other orgs' reversed). *)
+Definition del_one_prefix (X : N) (acc : state * nat) (n : name) : state * nat :=
+  let '(s, nf) := acc in
+  if has_tab (ftabs s) X n then
+    let s1 := match alias_targets s X n with
+              | [] => s
+              | _ :: _ => fold_left (fun st a => rem_alias st X n a) (file_keys s X n) s
+              end in
+    (mkSt (filter (fun p => negb (pair_is X n p)) (ftabs s1)) (mtabs s1) (adirs s1) (afile s1) (amem s1) (akeys s1)
+          (del_evs X n (evs s1))
+          (ghost s1 ++ map (fun e => (e_org e, e_tab e))
+                           (filter (fun e => name_eqb (e_tab e) n && negb (e_rot e)) (evs s1)))
+          (segno s1),
+     nf)
+  else (s, S nf).
+
+Definition do_delete_prefix (s : state) (X : N) (expr : name) : state * N :=
+  if name_eqb expr n_traces then (s, 405)
+  else
+    let names := expand s X true expr in
+    let '(s', nf) := fold_left (del_one_prefix X) names (s, O) in
+    (s', if Nat.eqb nf (length names) then 404 else 200).
+
+Definition flush_one_prefix (s : state) (fl : list (N * name * name)) (k : N * name) : list (N * name * name) :=
+  if dir_ok s (fst k) then
+    filter (fun t => negb ((fst (fst t) =? fst k) && name_eqb (snd (fst t)) (snd k))) fl
+    ++ map (fun i => (fst k, snd k, i)) (alias_targets s (fst k) (snd k))
+  else fl.
+Definition loadable_prefix (t : N * name * name) : bool :=
+  negb (fst (fst t) =? 0) && negb (is_empty (snd (fst t))) && negb (is_empty (snd t)).
+Definition do_restart_prefix (s : state) : state :=
+  let fl := fold_left (flush_one_prefix s) (akeys s) (afile s) in
+  let ld := filter loadable_prefix fl in
+  mkSt (ftabs s) (filter (fun p => fst p =? 0) (ftabs s)) (adirs s) fl
+       (map (fun t => (fst (fst t), snd t, snd (fst t))) ld)
+       (map (fun t => (fst (fst t), snd t)) ld)
+       (map set_rot (evs s)) [] (segno s + 1).
+
+Definition step_prefix (s : state) (o : op) : state * out :=
+  match o with
+  | Delete X expr => let '(s', c) := do_delete_prefix s X expr in (s', OCode c)
+  | Restart => (do_restart_prefix s, ONone)
+  | _ => step s o
+  end.
+Definition run_prefix (ops : list op) : state := fold_left (fun st o => fst (step_prefix st o)) ops init.
+Fixpoint outs_prefix (s : state) (ops : list op) : list out :=
+  match ops with
+  | [] => []
+  | o :: r => let '(s', x) := step_prefix s o in x :: outs_prefix s' r
+  end.
